@@ -413,6 +413,24 @@ impl World {
         Ok(Some(id))
     }
 
+    /// Allocate `size` bytes with an explicit alignment and offset, publish the memory as a
+    /// well-formed (immediately unreachable) object and record its range as handed out since the
+    /// last collection, so that later allocations are checked against it (C02 with the alignment
+    /// dimension of C03).  Returns the address (zero if the allocation failed).
+    pub fn alloc_aligned_garbage(&mut self, m: usize, size: usize, align: usize, offset: usize, sem: Sem) -> Result<Address, Fail> {
+        self.stats.ops += 1;
+        let sem = self.effective_sem(size, sem);
+        let a = self.alloc_raw(m, size, align, offset, sem, None)?;
+        if a.is_zero() {
+            return Ok(a);
+        }
+        let id = NEXT_ID.fetch_add(1, std::sync::atomic::Ordering::SeqCst);
+        let o = init_object(a, size, 0, 0, align, id);
+        mmtk::memory_manager::post_alloc(self.mutator(m), o, size, sem.to_mmtk());
+        self.shadow.recent.insert(a.as_usize(), (a.as_usize() + size, id));
+        Ok(a)
+    }
+
     // -----------------------------------------------------------------------------------------
     // pinning
 
